@@ -443,6 +443,100 @@ def m_and_then(it, name, a):
     return a[0]
 
 
+@model(exact=('Result::and', 'std::result::Result::and', 'std::option::Option::and', 'Option::and'))
+def m_res_and(it, name, a):
+    return a[1] if a[0].variant in ('Ok', 'Some') else a[0]
+
+
+@model(exact=('Result::or', 'std::result::Result::or'))
+def m_res_or(it, name, a):
+    return a[0] if a[0].variant == 'Ok' else a[1]
+
+
+@model(exact=('Result::or_else', 'std::result::Result::or_else', 'std::option::Option::or_else', 'Option::or_else'))
+def m_res_or_else(it, name, a):
+    if a[0].variant in ('Ok', 'Some'):
+        return a[0]
+    return it.call_callable(a[1], list(a[0].f))
+
+
+@model(exact=('Result::unwrap_err', 'Result::expect_err'))
+def m_unwrap_err(it, name, a):
+    if a[0].variant == 'Err':
+        return a[0].f[0]
+    raise Panic('unwrap_err on Ok')
+
+
+@model(exact=('std::option::Option::map_or', 'Option::map_or', 'Result::map_or'))
+def m_map_or(it, name, a):
+    if a[0].variant in ('Some', 'Ok'):
+        return it.call_callable(a[2], [a[0].f[0]])
+    return a[1]
+
+
+@model(exact=('std::option::Option::map_or_else', 'Option::map_or_else', 'Result::map_or_else'))
+def m_map_or_else(it, name, a):
+    if a[0].variant in ('Some', 'Ok'):
+        return it.call_callable(a[2], [a[0].f[0]])
+    return it.call_callable(a[1], list(a[0].f) if a[0].variant == 'Err' else [])
+
+
+@model(exact=('std::option::Option::is_some_and', 'Option::is_some_and', 'Result::is_ok_and'))
+def m_is_some_and(it, name, a):
+    return a[0].variant in ('Some', 'Ok') and it.decide(it.call_callable(a[1], [a[0].f[0]]))
+
+
+@model(exact=('std::option::Option::get_or_insert_with', 'Option::get_or_insert_with', 'std::option::Option::insert', 'Option::insert', 'std::option::Option::replace', 'Option::replace'))
+def m_opt_insert(it, name, a):
+    r = innermost_ref(it, a[0])
+    cur = it.read(r.cell, r.path)
+    op = _meth(name)
+    if op == 'replace':
+        it.write(r.cell, r.path, some(a[1]))
+        return cur
+    if op == 'insert' or cur.variant == 'None':
+        v = a[1] if op == 'insert' else it.call_callable(a[1], [])
+        it.write(r.cell, r.path, some(v))
+    return Ref(r.cell, r.path + (('f', 0),))
+
+
+@model(r'core::slice::<impl \[.*\]>::split_(last|first)(_mut)?')
+def m_split_last(it, name, a):
+    r = innermost_ref(it, a[0])
+    v = it.read(r.cell, r.path).items
+    if not v:
+        return none()
+    if 'split_last' in _meth(name):
+        return some(Adt('()', None, [elem_ref(r, len(v) - 1), Ref(Cell(VecV(list(v[:-1]))))]))
+    return some(Adt('()', None, [elem_ref(r, 0), Ref(Cell(VecV(list(v[1:]))))]))
+
+
+@model(r'core::slice::<impl \[.*\]>::split_at')
+def m_split_at(it, name, a):
+    v = vec_of(it, a[0]).items
+    if a[1] > len(v):
+        raise Panic('split_at: mid > len')
+    return Adt('()', None, [Ref(Cell(VecV(list(v[:a[1]])))), Ref(Cell(VecV(list(v[a[1]:]))))])
+
+
+@model(r'core::slice::<impl \[.*\]>::(chunks|windows)')
+def m_chunks(it, name, a):
+    v = vec_of(it, a[0]).items
+    n = a[1]
+    if n == 0:
+        raise Panic('chunk size must be non-zero')
+    if _meth(name) == 'chunks':
+        parts = [v[i:i + n] for i in range(0, len(v), n)]
+    else:
+        parts = [v[i:i + n] for i in range(0, max(0, len(v) - n + 1))]
+    return IterV('owned', [Ref(Cell(VecV(list(p)))) for p in parts], 0)
+
+
+@model(r'core::slice::<impl \[.*\]>::iter\(\)', r'core::slice::<impl \[.*\]>::to_owned')
+def m_slice_misc(it, name, a):
+    return clone_val(vec_of(it, a[0]))
+
+
 @model(exact=('std::option::Option::is_some', 'Option::is_some', 'Result::is_ok'))
 def m_is_some(it, name, a):
     return D(it, a[0]).variant in ('Some', 'Ok')
